@@ -87,6 +87,20 @@ fn repr_of(attrs: &[Attribute]) -> Option<String> {
     None
 }
 
+const FOREIGN_DERIVES: [&str; 11] = [
+    "Clone", "Copy", "PartialEq", "Eq", "StructuralPartialEq", "TrivialClone", "PartialOrd", "Ord", "Hash", "Default", "StructuralEq",
+];
+
+fn is_foreign_derive(im: &ItemImpl) -> bool {
+    if !im.attrs.iter().any(|a| a.path().is_ident("automatically_derived")) {
+        return false;
+    }
+    match &im.trait_ {
+        Some((_, p, _)) => FOREIGN_DERIVES.contains(&p.segments.last().unwrap().ident.to_string().as_str()),
+        None => false,
+    }
+}
+
 fn vis_str(v: &Visibility) -> String {
     flat(v)
 }
@@ -199,8 +213,9 @@ fn extract_mod(name: &str, items: &[Item], overlay: &Value) -> Option<Value> {
             Item::Impl(im) => im,
             _ => continue,
         };
-        // skip impls produced by other derives
-        if im.attrs.iter().any(|a| a.path().is_ident("automatically_derived")) {
+        // skip impls produced by other derives (Clone, Copy, PartialEq, …); an `automatically_derived`
+        // attribute on one of the macro's own impls does not hide it
+        if is_foreign_derive(im) {
             continue;
         }
         let self_ty_s = flat(&im.self_ty);
@@ -301,7 +316,7 @@ fn extract_mod(name: &str, items: &[Item], overlay: &Value) -> Option<Value> {
             Item::Enum(e) => format!("enum {}", e.ident),
             Item::Struct(s) => format!("struct {}", s.ident),
             Item::Impl(im) => {
-                if im.attrs.iter().any(|a| a.path().is_ident("automatically_derived")) {
+                if is_foreign_derive(im) {
                     continue;
                 }
                 format!(
